@@ -6,7 +6,9 @@ interpolations, plus keyword parameters.  `gen/cypher.py` turns every such const
 Neo4j modules into a `List Piece` (in `FimVerif/Generated/Cypher.lean`); this file gives the pieces
 their meaning (`render`, mirroring Python's f-string / `join` / accumulate-and-trim semantics), says
 when a template is free of stored values (`valueFree`), and contains the statement lint `checkStmt`
-(balanced, nothing left unexpanded, every `$name` supplied, every variable bound).
+(balanced, nothing left unexpanded, every `$name` supplied, every variable bound where it is referenced - Cypher scoping clause by
+clause -, every keyword / operator with its operands, no dangling comma, clauses in an order Cypher accepts), the identifier
+HOLES (`markerBase`, `expand`, `holeEnv`) and the decidable side conditions (`cleanFor`, `renderOK`) of the hole theorems.
 
 All text is a list of code points (like Python's `str`), so that everything reduces in the kernel.
 No Mathlib.
@@ -200,24 +202,43 @@ def Piece.params : Piece → List Text
   | .rep src _ body => body.flatMap Inner.params ++ src.fixed.flatMap (fun kv => kv.2.flatMap Atom.params)
 def tplParams (t : List Piece) : List Text := t.flatMap Piece.params
 
+
 /-! ### statement lint
 
 The lint works on code points (`List Nat`): comparisons of `Nat` literals are cheap in the kernel,
-comparisons of `Char` are not. -/
+comparisons of `Char` are not.
+
+Code points from `markerBase` (= 0x110000, one past the last Unicode scalar, so no Python string contains one) stand for
+*identifier holes*: `markerBase + k` is hole number `k`.  The lexer treats them as identifier characters, so a template rendered
+with holes in its identifier slots is lexed and linted like any other text, and `expand ρ` substitutes strings for the holes.
+`Proofs/Lemmas/C19Lex.lean` / `C19Scan.lean` prove that the verdict on `expand ρ t` is the verdict on `t` for every assignment `ρ`
+of identifier-shaped non-keyword strings (under the decidable side condition `cleanFor t`). -/
 
 abbrev Codes := Text
 
 macro:max "n!" s:str : term => `(t! $s)
 
-def isIdStart (c : Nat) : Bool := (Nat.ble cp%'a' c && Nat.ble c cp%'z') || (Nat.ble cp%'A' c && Nat.ble c cp%'Z') || c == cp%'_'
+def markerBase : Nat := 1114112
+def isMarker (c : Nat) : Bool := Nat.ble markerBase c
+def isIdStart0 (c : Nat) : Bool := (Nat.ble cp%'a' c && Nat.ble c cp%'z') || (Nat.ble cp%'A' c && Nat.ble c cp%'Z') || c == cp%'_'
+def isIdStart (c : Nat) : Bool := isIdStart0 c || isMarker c
 def isDigit (c : Nat) : Bool := Nat.ble cp%'0' c && Nat.ble c cp%'9'
 def isIdChar (c : Nat) : Bool := isIdStart c || isDigit c
 def isWs (c : Nat) : Bool := c == cp%' ' || c == cp%'\t' || c == cp%'\n' || c == cp%'\r'
+def isQuote (c : Nat) : Bool := c == cp%'\'' || c == cp%'"' || c == cp%'`'
 def lowerC (c : Nat) : Nat := if Nat.ble cp%'A' c && Nat.ble c cp%'Z' then c + 32 else c
 def lower (s : Codes) : Codes := s.map lowerC
 
+/-- substitute `ρ k` for hole `k` -/
+def expand (ρ : Nat → Text) : Text → Text
+  | [] => []
+  | c :: t => (if isMarker c then ρ (c - markerBase) else [c]) ++ expand ρ t
+
+/-- `id`: a word that is not a keyword (variable, label, property, function, procedure name) - or any word right after a `.`;
+`kw`: a keyword, lower-cased -/
 inductive Tok where
   | id (s : Codes)
+  | kw (w : Codes)
   | num
   | str
   | par (s : Codes)
@@ -226,44 +247,72 @@ inductive Tok where
 
 /-- rest of the input after the closing quote `q`; `none` if the literal is not terminated.
 A backslash escapes the next character (not inside backticks). -/
-def skipStr (q : Nat) : Nat → Codes → Option Codes
-  | 0, _ => none
-  | _ + 1, [] => none
-  | fuel + 1, c :: rest =>
+def skipStr (q : Nat) : Codes → Option Codes
+  | [] => none
+  | c :: rest =>
     if c == q then some rest
     else if c == cp%'\\' && q != cp%'`' then
       match rest with
       | [] => none
-      | _ :: r2 => skipStr q fuel r2
-    else skipStr q fuel rest
+      | _ :: r2 => skipStr q r2
+    else skipStr q rest
 
 structure Lexed where
   toks : List Tok
   stripped : Codes    -- the text with literal contents and comments removed
   closed : Bool       -- every quote terminated
+  deriving Repr, DecidableEq
 
-def lexAux : Nat → Codes → List Tok → Codes → Lexed
-  | 0, _, ts, st => ⟨ts.reverse, st.reverse, true⟩
-  | _ + 1, [], ts, st => ⟨ts.reverse, st.reverse, true⟩
-  | fuel + 1, c :: rest, ts, st =>
-    if c == cp%'\'' || c == cp%'"' || c == cp%'`' then
-      match skipStr c (rest.length + 1) rest with
-      | none => ⟨(Tok.str :: ts).reverse, st.reverse, false⟩
-      | some r => lexAux fuel r (Tok.str :: ts) (c :: c :: st)
-    else if c == cp%'/' && rest.head? == some cp%'/' then lexAux fuel (rest.dropWhile (fun x => x != cp%'\n')) ts st
-    else if isWs c then lexAux fuel rest ts (c :: st)
+def Lexed.cons (t : List Tok) (s : Codes) (L : Lexed) : Lexed := ⟨t ++ L.toks, s ++ L.stripped, L.closed⟩
+
+/-- raw tokens: every word is an `id` here, `classify` separates the keywords afterwards -/
+def lexAux : Nat → Codes → Lexed
+  | 0, _ => ⟨[], [], true⟩
+  | _ + 1, [] => ⟨[], [], true⟩
+  | fuel + 1, c :: rest =>
+    if isQuote c then
+      match skipStr c rest with
+      | none => ⟨[Tok.str], [], false⟩
+      | some r => (lexAux fuel r).cons [Tok.str] [c, c]
+    else if c == cp%'/' && rest.head? == some cp%'/' then lexAux fuel (rest.dropWhile (fun x => x != cp%'\n'))
+    else if isWs c then (lexAux fuel rest).cons [] [c]
     else if c == cp%'$' && (rest.head?.map isIdStart).getD false then
-      let nm := rest.takeWhile isIdChar
-      lexAux fuel (rest.dropWhile isIdChar) (Tok.par nm :: ts) (nm.reverse ++ cp%'$' :: st)
+      (lexAux fuel (rest.dropWhile isIdChar)).cons [Tok.par (rest.takeWhile isIdChar)] (cp%'$' :: rest.takeWhile isIdChar)
     else if isIdStart c then
-      let nm := c :: rest.takeWhile isIdChar
-      lexAux fuel (rest.dropWhile isIdChar) (Tok.id nm :: ts) (nm.reverse ++ st)
+      (lexAux fuel (rest.dropWhile isIdChar)).cons [Tok.id (c :: rest.takeWhile isIdChar)] (c :: rest.takeWhile isIdChar)
     else if isDigit c then
-      let nm := c :: rest.takeWhile isDigit
-      lexAux fuel (rest.dropWhile isDigit) (Tok.num :: ts) (nm.reverse ++ st)
-    else lexAux fuel rest (Tok.sym c :: ts) (c :: st)
+      (lexAux fuel (rest.dropWhile isDigit)).cons [Tok.num] (c :: rest.takeWhile isDigit)
+    else (lexAux fuel rest).cons [Tok.sym c] [c]
 
-def lex (t : Codes) : Lexed := lexAux (t.length + 1) t [] []
+def lexRaw (t : Codes) : Lexed := lexAux (t.length + 1) t
+
+def keywords : List Codes := [
+  n!"match", n!"optional", n!"where", n!"return", n!"with", n!"as", n!"call", n!"yield", n!"set", n!"remove", n!"detach",
+  n!"delete", n!"unwind", n!"union", n!"and", n!"or", n!"not", n!"in", n!"is", n!"null", n!"true", n!"false", n!"distinct",
+  n!"create", n!"merge", n!"order", n!"by", n!"limit", n!"skip", n!"on", n!"xor", n!"starts", n!"ends", n!"contains",
+  n!"case", n!"when", n!"then", n!"else", n!"end", n!"exists", n!"all", n!"any", n!"none", n!"single", n!"asc", n!"desc",
+  n!"foreach", n!"index", n!"if", n!"for"]
+
+def isKw (x : Codes) : Bool := keywords.contains (lower x)
+
+def isSym (t : Option Tok) (c : Nat) : Bool :=
+  match t with
+  | some (.sym d) => d == c
+  | _ => false
+def isKwT (t : Option Tok) (w : Codes) : Bool :=
+  match t with
+  | some (.kw x) => x == w
+  | _ => false
+def kwIn (t : Option Tok) (l : List Codes) : Bool :=
+  match t with
+  | some (.kw x) => l.contains x
+  | _ => false
+
+/-- a word is a keyword unless it directly follows a `.` (property / namespace position) -/
+def classify : Option Tok → List Tok → List Tok
+  | _, [] => []
+  | p, .id nm :: rest => (if !isSym p cp%'.' && isKw nm then Tok.kw (lower nm) else Tok.id nm) :: classify (some (.id nm)) rest
+  | _, t :: rest => t :: classify (some t) rest
 
 def closer (c : Nat) : Option Nat :=
   if c == cp%'(' then some cp%')' else if c == cp%'[' then some cp%']' else if c == cp%'{' then some cp%'}' else none
@@ -292,32 +341,21 @@ def unexpanded : Codes → Bool
     else if c == cp%'}' then (rest.head? == some cp%'}') || unexpanded rest
     else unexpanded rest
 
-def keywords : List Codes := [
-  n!"match", n!"optional", n!"where", n!"return", n!"with", n!"as", n!"call", n!"yield", n!"set", n!"remove", n!"detach",
-  n!"delete", n!"unwind", n!"union", n!"and", n!"or", n!"not", n!"in", n!"is", n!"null", n!"true", n!"false", n!"distinct",
-  n!"create", n!"merge", n!"order", n!"by", n!"limit", n!"skip", n!"on", n!"xor", n!"starts", n!"ends", n!"contains",
-  n!"case", n!"when", n!"then", n!"else", n!"end", n!"exists", n!"all", n!"any", n!"none", n!"single", n!"asc", n!"desc",
-  n!"foreach", n!"index", n!"if", n!"for"]
-
-def isKw (x : Codes) : Bool := keywords.contains (lower x)
-def isWord (t : Option Tok) (w : Codes) : Bool :=
-  match t with
-  | some (.id x) => lower x == w
-  | _ => false
-def isSym (t : Option Tok) (c : Nat) : Bool :=
-  match t with
-  | some (.sym d) => d == c
-  | _ => false
 /-- the token before a `(` makes it a function call -/
 def isCallee (t : Option Tok) : Bool :=
   match t with
-  | some (.id x) => !isKw x
+  | some (.id _) => true
+  | _ => false
+
+def isWordTok : Tok → Bool
+  | .id _ => true
+  | .kw _ => true
   | _ => false
 
 /-- tokens after an identifier: `.a.b(` = namespaced function -/
 def dottedCall : List Tok → Bool
-  | .sym c :: .id _ :: rest =>
-    if c == cp%'.' then
+  | .sym c :: w :: rest =>
+    if c == cp%'.' && isWordTok w then
       match rest with
       | .sym d :: _ => if d == cp%'(' then true else dottedCall rest
       | _ => false
@@ -339,6 +377,20 @@ def badFollowerWords : List Codes := [
   n!"match", n!"optional", n!"where", n!"return", n!"with", n!"call", n!"yield", n!"set", n!"remove", n!"detach", n!"delete",
   n!"unwind", n!"union", n!"order", n!"limit", n!"skip", n!"create", n!"merge", n!"on", n!"and", n!"or", n!"xor", n!"as", n!"in",
   n!"then", n!"else", n!"end", n!"when", n!"by"]
+/-- binary boolean words: they also need a LEFT operand -/
+def boolWords : List Codes := [n!"and", n!"or", n!"xor"]
+/-- keywords an operand can end with -/
+def operandEndWords : List Codes := [n!"null", n!"true", n!"false", n!"end"]
+/-- operator symbols that need a right operand (`.` as well, unless it is the second dot of a range) -/
+def opSyms : List Nat := [cp%'=', cp%'<', cp%'>', cp%'+', cp%':']
+/-- clause words a statement (or a branch of a UNION) can start with -/
+def starters : List Codes := [
+  n!"match", n!"optional", n!"create", n!"merge", n!"call", n!"unwind", n!"with", n!"return", n!"foreach"]
+/-- clause words a statement can end in (ORDER BY / SKIP / LIMIT count as part of the RETURN or WITH they follow) -/
+def enders : List Codes := [
+  n!"return", n!"set", n!"remove", n!"delete", n!"create", n!"merge", n!"call", n!"yield", n!"foreach"]
+def subClauses : List Codes := [n!"order", n!"skip", n!"limit"]
+def patternClauses : List Codes := [n!"match", n!"create", n!"merge"]
 
 def isOpener (c : Nat) : Bool := c == cp%'(' || c == cp%'[' || c == cp%'{'
 def isCloser (c : Nat) : Bool := c == cp%')' || c == cp%']' || c == cp%'}'
@@ -346,17 +398,51 @@ def isCloser (c : Nat) : Bool := c == cp%')' || c == cp%']' || c == cp%'}'
 def badFollower (t : Option Tok) : Bool :=
   match t with
   | none => true
-  | some (.id y) => badFollowerWords.contains (lower y)
+  | some (.kw y) => badFollowerWords.contains y
   | some (.sym c) => isCloser c || c == cp%',' || c == cp%';' || c == cp%'|'
   | _ => false
 
-def isClauseTok (t : Option Tok) : Bool :=
+def isClauseTok (t : Option Tok) : Bool := kwIn t clauseWords
+
+/-- the token an operand can end with -/
+def operandEnd (t : Option Tok) : Bool :=
   match t with
-  | some (.id y) => clauseWords.contains (lower y)
+  | some (.id _) => true
+  | some .num => true
+  | some .str => true
+  | some (.par _) => true
+  | some (.sym c) => isCloser c || c == cp%'*'
+  | some (.kw y) => operandEndWords.contains y
+  | none => false
+
+/-- after a comma: nothing, a closer or another comma -/
+def commaBad (t : Option Tok) : Bool :=
+  match t with
+  | none => true
+  | some (.sym d) => isCloser d || d == cp%','
   | _ => false
 
-/-- state of the scoping pass.  `scope`: variables carried into the current scope by the last WITH; `segB` / `segU`: variables
-bound / used since then; `carry`: what the WITH clause being read lists or aliases. -/
+def isNone (t : Option Tok) : Bool :=
+  match t with
+  | none => true
+  | _ => false
+
+/-- may clause word `lw` follow when the last clause word at bracket depth 0 was `last` (`[]`: start of the statement or of a UNION
+branch)?  WHERE belongs to MATCH / WITH / YIELD, YIELD to CALL, UNION follows a RETURN, nothing but UNION follows a RETURN. -/
+def orderOK (last lw : Codes) : Bool :=
+  if last == [] then starters.contains lw
+  else if last == n!"return" then lw == n!"union" || subClauses.contains lw
+  else if last == n!"optional" then lw == n!"match"
+  else if last == n!"detach" then lw == n!"delete"
+  else if lw == n!"where" then last == n!"match" || last == n!"with" || last == n!"yield"
+  else if lw == n!"yield" then last == n!"call"
+  else if lw == n!"union" then false
+  else if subClauses.contains lw then last == n!"with"
+  else true
+
+/-- state of the scoping pass.  `scope`: variables carried into the current scope by the last WITH; `segB`: variables bound
+since then; `clU`: variables used in the clause being read (checked when the clause ends: binding is sequential, clause by clause);
+`carry`: what the WITH clause being read lists or aliases; `last`: last clause word at depth 0. -/
 structure St where
   depth : Nat
   inYield : Bool
@@ -364,101 +450,159 @@ structure St where
   star : Bool
   scope : List Codes
   segB : List Codes
-  segU : List Codes
+  clU : List Codes
   carry : List Codes
   unbound : List Codes
+  last : Codes
   emptyClause : Bool
   dangling : Bool
+  operand : Bool
+  order : Bool
+  deriving Repr, DecidableEq
 
-def St.init : St := ⟨0, false, false, false, [], [], [], [], [], false, false⟩
+def St.init : St := ⟨0, false, false, false, [], [], [], [], [], [], false, false, false, false⟩
 
-/-- end of a scope: uses not bound in it are reported; a WITH clause hands on only what it lists (everything after `*`),
-UNION (`reset`) starts from nothing -/
+/-- end of a clause: its uses must be bound by now -/
+def St.flush (s : St) : St :=
+  { s with unbound := s.clU.foldl (fun acc x => if s.scope.contains x || s.segB.contains x || acc.contains x then acc else acc ++ [x]) s.unbound,
+           clU := [] }
+
+/-- end of a scope: a WITH clause hands on only what it lists (everything after `*`), UNION (`reset`) starts from nothing -/
 def St.close (s : St) (reset : Bool) : St :=
-  let ub := s.segU.foldl (fun acc x => if s.scope.contains x || s.segB.contains x || acc.contains x then acc else acc ++ [x]) s.unbound
-  let scope' := if reset then [] else if s.inItems then s.carry ++ (if s.star then s.scope ++ s.segB else []) else s.scope ++ s.segB
-  { s with unbound := ub, scope := scope', segB := [], segU := [], inItems := false }
+  let s1 := s.flush
+  let scope' := if reset then [] else if s1.inItems then s1.carry ++ (if s1.star then s1.scope ++ s1.segB else []) else s1.scope ++ s1.segB
+  { s1 with scope := scope', segB := [], inItems := false }
 
-def step (s0 : St) (p2 p1 : Option Tok) (cur : Tok) (rest : List Tok) : St :=
+/-- the identifier at this position is bound here: node / relationship pattern variable, comprehension or quantifier variable,
+alias after AS, path variable `p = …` in a pattern clause -/
+def binds (s : St) (p2 p1 nx : Option Tok) : Bool :=
+  (isSym p1 cp%'(' && !isCallee p2 && !isSym nx cp%'.' && !isSym nx cp%'(') ||
+  (isSym p1 cp%'[' && isSym p2 cp%'-') ||
+  (isSym p1 cp%'[' && isKwT nx n!"in") ||
+  isKwT p1 n!"as" ||
+  (s.depth == 0 && isSym nx cp%'=' && (kwIn p1 patternClauses || (isSym p1 cp%',' && patternClauses.contains s.last)))
+
+/-- the identifier at this position refers to a variable (not a label, property, map key, function or procedure name) -/
+def uses (p1 nx : Option Tok) (rest : List Tok) : Bool :=
+  !isSym p1 cp%'.' && !isSym p1 cp%':' && !isSym nx cp%':' && !isSym nx cp%'(' &&
+  !(isSym nx cp%'.' && dottedCall rest) && !isKwT p1 n!"index"
+
+/-- a bare variable or an alias in the item list of a WITH at depth 0 stays visible -/
+def carries (s : St) (p1 nx : Option Tok) : Bool :=
+  s.inItems && s.depth == 0 &&
+  (((isKwT p1 n!"with" || isKwT p1 n!"distinct" || isSym p1 cp%',') && (isNone nx || isSym nx cp%',' || isClauseTok nx)) ||
+   isKwT p1 n!"as")
+
+def stepKw (s0 : St) (p1 nx : Option Tok) (lw : Codes) : St :=
+  let s : St := { s0 with emptyClause := s0.emptyClause || (needsOperand.contains lw && badFollower nx),
+                          operand := s0.operand || (boolWords.contains lw && !operandEnd p1) }
+  let withClause := lw == n!"with" && !(isKwT p1 n!"starts" || isKwT p1 n!"ends")
+  let s1 : St :=
+    if s.depth == 0 && clauseWords.contains lw && (lw != n!"with" || withClause) then
+      let sA := if s.inItems then s.close false else s.flush
+      let sB := if lw == n!"union" then sA.close true else sA
+      let sC : St := { sB with order := sB.order || !orderOK sB.last lw,
+                               last := if lw == n!"union" then [] else if subClauses.contains lw then sB.last else lw }
+      if withClause then { sC with inItems := true, carry := [], star := false } else sC
+    else s
+  { s1 with inYield := lw == n!"yield" }
+
+def stepId (s : St) (p2 p1 : Option Tok) (x : Codes) (rest : List Tok) : St :=
   let nx := rest.head?
-  let ec := match cur with
-    | .id x => needsOperand.contains (lower x) && badFollower nx
-    | _ => false
-  let dg := match cur with
-    | .sym c => (c == cp%',' && (match nx with | none => true | some (.sym d) => isCloser d || d == cp%',' | _ => false)) ||
-                (isOpener c && isSym nx cp%',')
-    | _ => false
-  let s : St := { s0 with emptyClause := s0.emptyClause || ec, dangling := s0.dangling || dg }
+  if s.inYield then { s with segB := addNew s.segB x }
+  else
+    { s with segB := if binds s p2 p1 nx then addNew s.segB x else s.segB,
+             clU := if uses p1 nx rest then addNew s.clU x else s.clU,
+             carry := if carries s p1 nx then addNew s.carry x else s.carry }
+
+def stepSym (s0 : St) (p1 nx : Option Tok) (c : Nat) : St :=
+  let dg := (c == cp%',' && commaBad nx) || (isOpener c && isSym nx cp%',')
+  let op := (opSyms.contains c || (c == cp%'.' && !isSym p1 cp%'.')) && badFollower nx
+  let s1 : St := { s0 with dangling := s0.dangling || dg, operand := s0.operand || op,
+                           inYield := s0.inYield && (c == cp%',' || c == cp%'*'),
+                           star := s0.star || (s0.inItems && s0.depth == 0 && c == cp%'*' && (isKwT p1 n!"with" || isKwT p1 n!"distinct")) }
+  if isOpener c then { s1 with depth := s1.depth + 1 }
+  else if isCloser c then { s1 with depth := s1.depth - 1 }
+  else s1
+
+def step (s : St) (p2 p1 : Option Tok) (cur : Tok) (rest : List Tok) : St :=
   match cur with
-  | .id x =>
-    let lw := lower x
-    let kw := keywords.contains lw
-    let s1 : St :=
-      if s.depth == 0 then
-        let withClause := lw == n!"with" && !(isWord p1 n!"starts" || isWord p1 n!"ends")
-        let sA := if clauseWords.contains lw && (lw != n!"with" || withClause) && s.inItems then s.close false else s
-        let sB := if lw == n!"union" then sA.close true else sA
-        if withClause then { sB with inItems := true, carry := [], star := false } else sB
-      else s
-    let s2 : St :=
-      if s1.inYield && !kw then { s1 with segB := addNew s1.segB x }
-      else
-        let s' : St := { s1 with inYield := lw == n!"yield" }
-        if kw then s'
-        else
-          let b1 := isSym p1 cp%'(' && !isCallee p2 && !isSym nx cp%'.' && !isSym nx cp%'('
-          let b2 := isSym p1 cp%'[' && isSym p2 cp%'-'
-          let b3 := isSym p1 cp%'[' && isWord nx n!"in"
-          let b4 := isWord p1 n!"as"
-          let b6 := isSym nx cp%'=' && !isSym p1 cp%'.'
-          let u := !isSym p1 cp%'.' && !isSym p1 cp%':' && !isSym nx cp%':' && !isSym nx cp%'(' &&
-                   !(isSym nx cp%'.' && dottedCall rest) && !isWord p1 n!"index"
-          { s' with segB := if b1 || b2 || b3 || b4 || b6 then addNew s'.segB x else s'.segB,
-                    segU := if u then addNew s'.segU x else s'.segU }
-    if s2.inItems && s2.depth == 0 && !kw then
-      let itemStart := isWord p1 n!"with" || isWord p1 n!"distinct" || isSym p1 cp%','
-      let itemEnd := (match nx with | none => true | _ => false) || isSym nx cp%',' || isClauseTok nx
-      if (itemStart && itemEnd) || isWord p1 n!"as" then { s2 with carry := addNew s2.carry x } else s2
-    else s2
-  | .sym c =>
-    let s1 : St := { s with inYield := s.inYield && (c == cp%',' || c == cp%'*') }
-    let s2 : St := if s1.inItems && s1.depth == 0 && c == cp%'*' && (isWord p1 n!"with" || isWord p1 n!"distinct")
-      then { s1 with star := true } else s1
-    if isOpener c then { s2 with depth := s2.depth + 1 }
-    else if isCloser c then { s2 with depth := s2.depth - 1 }
-    else s2
+  | .kw lw => stepKw s p1 rest.head? lw
+  | .id x => stepId s p2 p1 x rest
+  | .sym c => stepSym s p1 rest.head? c
   | _ => { s with inYield := false }
+
+/-- end of the statement: the last clause is closed; a statement ends in RETURN, an updating clause or a CALL -/
+def St.finish (s : St) : St :=
+  let s1 := s.close false
+  { s1 with order := s1.order || !enders.contains s1.last }
 
 /-- one pass over the tokens with two tokens of left context -/
 def scan : List Tok → Option Tok → Option Tok → St → St
-  | [], _, _, s => s.close false
+  | [], _, _, s => s.finish
   | cur :: rest, p2, p1, s => scan rest p1 (some cur) (step s p2 p1 cur rest)
 
 structure Lint where
   defects : List String
   unbound : List Codes
   missing : List Codes
+  deriving Repr, DecidableEq
+
+def parsOf (toks : List Tok) : List Codes := toks.foldl (fun acc t => match t with | .par x => addNew acc x | _ => acc) []
 
 /-- Well-formedness as the property names it, decided on tokens: balanced; nothing unexpanded; every `$name` supplied; every
-variable bound in its scope (WITH at bracket depth 0 starts a new scope, UNION starts from nothing; patterns, AS, YIELD,
-UNWIND … AS and comprehensions bind); every clause keyword / boolean operator followed by an operand; no dangling comma. -/
+variable bound where it is referenced (clause by clause; WITH at bracket depth 0 starts a new scope, UNION starts from nothing;
+patterns, AS, YIELD, UNWIND … AS and comprehensions bind); every clause keyword / boolean operator / operator symbol has its
+operand(s); no dangling comma; the clauses come in an order Cypher accepts. -/
 def lintCodes (text : Codes) (supplied : List Codes) : Lint :=
-  let lx := lex text
-  let sc := scan lx.toks none none St.init
-  let pars := lx.toks.foldl (fun acc t => match t with | .par x => addNew acc x | _ => acc) []
-  let missing := pars.filter (fun x => !supplied.contains x)
-  let d1 := if !lx.closed || !balAux lx.toks [] then ["unbalanced"] else []
+  let lx := lexRaw text
+  let toks := classify none lx.toks
+  let sc := scan toks none none St.init
+  let missing := (parsOf toks).filter (fun x => !supplied.contains x)
+  let d1 := if !lx.closed || !balAux toks [] then ["unbalanced"] else []
   let d2 := if unexpanded lx.stripped then ["unexpanded-template"] else []
   let d3 := if missing.isEmpty then [] else ["missing-parameter"]
   let d4 := if sc.unbound.isEmpty then [] else ["unbound-variable"]
   let d5 := if sc.emptyClause then ["empty-clause"] else []
   let d6 := if sc.dangling then ["dangling-comma"] else []
-  ⟨d1 ++ d2 ++ d3 ++ d4 ++ d5 ++ d6, sc.unbound, missing⟩
+  let d7 := if sc.operand then ["missing-operand"] else []
+  let d8 := if sc.order then ["clause-order"] else []
+  ⟨d1 ++ d2 ++ d3 ++ d4 ++ d5 ++ d6 ++ d7 ++ d8, sc.unbound, missing⟩
 
 def lint (text : Text) (supplied : List Text) : Lint := lintCodes text supplied
 
 def checkStmt (text : Text) (supplied : List Text) : Bool := (lint text supplied).defects.isEmpty
 
+/-! ### identifier holes: the side conditions under which the verdict does not depend on what fills them -/
+
+def plain (s : Codes) : Bool := s.all (fun c => !isMarker c)
+
+/-- a raw token is clean when a hole is a whole word of its own (not glued to other identifier characters, not a parameter name) -/
+def cleanTok : Tok → Bool
+  | .id nm => plain nm || (match nm with | [c] => isMarker c | _ => false)
+  | .par nm => plain nm
+  | _ => true
+
+def isHole : Tok → Bool
+  | .id nm => !plain nm
+  | _ => false
+
+/-- every hole sits at a position where the scoping pass ignores the identifier (label, relationship type, property name, map key) -/
+def scanChk : List Tok → Option Tok → Option Tok → St → Bool
+  | [], _, _, _ => true
+  | cur :: rest, p2, p1, s =>
+    (!isHole cur || (!s.inYield && !binds s p2 p1 rest.head? && !uses p1 rest.head? rest && !carries s p1 rest.head?)) &&
+    scanChk rest p1 (some cur) (step s p2 p1 cur rest)
+
+def cleanFor (t : Text) : Bool :=
+  (lexRaw t).toks.all cleanTok && scanChk (classify none (lexRaw t).toks) none none St.init
+
+/-- what may fill a hole: a non-empty identifier-shaped string that is not one of the lint's keywords -/
+def identOK (x : Codes) : Bool :=
+  (match x with | [] => false | c :: _ => isIdStart0 c) && x.all (fun c => isIdStart0 c || isDigit c) && !isKw x
+
+
+/-! ### environments the generated templates are evaluated in -/
 
 /-- canonical environment for an operation: every identifier slot holds `X`, every value slot `v`,
 every mapping has one row (key `K`, value `v`, every field present) -/
@@ -466,6 +610,7 @@ def canonRow : Row := ⟨[(t!"k", t!"K"), (t!"v", t!"discard"), (t!"resource_typ
                        [(t!"v", t!"v"), (t!"resource_model", t!"m")]⟩
 def identNames : List Text := [t!"label", t!"rel", t!"kind", t!"prop_name", t!"node_label", t!"rel1", t!"rel2", t!"node1_label", t!"node2_label"]
 def valueNames : List Text := [t!"node_id", t!"node_a", t!"node_b", t!"node_z", t!"prop_val", t!"name", t!"node_name", t!"ntype", t!"cut_off", t!"graph_id", t!"other_graph_id", t!"graphml_file"]
+def mapNames : List Text := [t!"props", t!"merge_properties", t!"component_counts"]
 def canonEnv : Env :=
   ⟨identNames.map (fun n => (n, t!"X")), valueNames.map (fun n => (n, t!"v")),
    [(t!"props", [canonRow]), (t!"merge_properties", [canonRow]), (t!"component_counts", [canonRow])]⟩
@@ -480,5 +625,61 @@ def propsOnlyEnv : Env := ⟨canonEnv.idents, canonEnv.values,
 
 /-- the template iterates over a mapping -/
 def usesMaps (t : List Piece) : Bool := t.any (fun p => match p with | .rep _ _ _ => true | _ => false)
+
+/-! #### the same shapes with HOLES in every identifier slot
+
+Hole `i` (< 20) is the `i`-th scalar identifier argument (`identNames`); holes from 20 are the identifier fields of mapping rows
+(key, merge behaviour, component type).  Counts (`count`) and every stored value keep their canonical text. -/
+
+def hole (k : Nat) : Text := [markerBase + k]
+def rowBase : Nat := 20
+def holeRow (b : Nat) : Row := ⟨[(t!"k", hole b), (t!"v", hole (b + 1)), (t!"resource_type", hole (b + 2)), (t!"count", t!"1")],
+                                 [(t!"v", t!"v"), (t!"resource_model", t!"m")]⟩
+def holeIdents : List (Text × Text) := (List.range identNames.length).zip identNames |>.map (fun p => (p.2, hole p.1))
+/-- `n` rows in every mapping (`withComps = false`: no counted components) -/
+def holeEnv (n : Nat) (withComps : Bool) : Env :=
+  ⟨holeIdents, canonEnv.values,
+   [(t!"props", (List.range n).map (fun i => holeRow (rowBase + 4 * i))),
+    (t!"merge_properties", (List.range n).map (fun i => holeRow (rowBase + 20 + 4 * i))),
+    (t!"component_counts", if withComps then (List.range n).map (fun i => holeRow (rowBase + 40 + 4 * i)) else [])]⟩
+/-- None/empty, singleton, several (2 and 3 rows), and entries without counted components -/
+def holeEnvs : List Env := [holeEnv 0 false, holeEnv 1 true, holeEnv 1 false, holeEnv 2 true, holeEnv 2 false, holeEnv 3 true]
+
+def expandPairs (ρ : Nat → Text) (l : List (Text × Text)) : List (Text × Text) := l.map (fun p => (p.1, expand ρ p.2))
+def Row.expandAll (ρ : Nat → Text) (r : Row) : Row := ⟨expandPairs ρ r.idents, expandPairs ρ r.values⟩
+/-- fill the holes of an environment -/
+def Env.expandAll (ρ : Nat → Text) (e : Env) : Env :=
+  ⟨expandPairs ρ e.idents, expandPairs ρ e.values, e.maps.map (fun p => (p.1, p.2.map (Row.expandAll ρ)))⟩
+
+/-- keys of the dict literals some templates start from (`{'Class': …, 'GraphID': …, 'NodeID': …}.update(props)`): a caller's
+entry with such a key REPLACES the literal's entry, which changes the shape of the text - the hole theorems exclude it -/
+def reservedKeys : List Text := [t!"Class", t!"GraphID", t!"NodeID"]
+
+/-- side conditions (on the template and the environment with holes) under which rendering commutes with filling the holes -/
+def atomPlain : Atom → Bool
+  | .lit s => plain s
+  | .param x => plain x
+  | _ => true
+def innerPlain : Inner → Bool
+  | .atom a => atomPlain a
+  | .opt _ body => body.all atomPlain
+def isRowHole (x : Text) : Bool := match x with | [c] => Nat.ble (markerBase + rowBase) c | _ => false
+def keysOK (e : Env) (src : MapSrc) : Bool :=
+  src.fixed.isEmpty ||
+  (src.fixed.all (fun kv => plain kv.1 && reservedKeys.contains kv.1 && kv.2.all atomPlain) &&
+   (argRows e src).all (fun r => isRowHole (get r.idents t!"k")))
+def trimOK (mode : RepMode) (items : List Text) : Bool :=
+  match mode with
+  | .join sep => plain sep
+  | .accTrim n d => let s := items.flatten; s.isEmpty || (Nat.blt n s.length && Nat.ble d s.length && plain (s.drop (s.length - d)))
+def pieceOK (e : Env) : Piece → Bool
+  | .atom a => atomPlain a
+  | .rep src mode body => body.all innerPlain && keysOK e src && trimOK mode ((rows e src).map (fun r => renderInner e r body))
+def renderOK (e : Env) (t : List Piece) : Bool := t.all (pieceOK e)
+
+/-- what the hole theorems quantify over: every hole filled with an identifier-shaped non-keyword string, row holes (mapping
+keys) not with a reserved key -/
+def GoodSubst (ρ : Nat → Text) : Prop :=
+  (∀ k, identOK (ρ k) = true) ∧ (∀ k, rowBase ≤ k → reservedKeys.contains (ρ k) = false)
 
 end FimVerif.Cypher
